@@ -15,7 +15,7 @@ pub struct Rep { pub n: usize }
 impl Rep {
     pub fn report(&mut self, scenario: &str, seed: u64, what: String) {
         self.n += 1;
-        if self.n <= 40 { println!("{{\"scenario\":\"{}\",\"seed\":{},\"what\":\"{}\"}}", scenario, seed, what.replace('"', "'")); }
+        if self.n <= 3000 { println!("{{\"scenario\":\"{}\",\"seed\":{},\"what\":\"{}\"}}", scenario, seed, what.replace('"', "'")); }
     }
 }
 struct Lcg(u64);
@@ -24,9 +24,9 @@ impl Lcg {
     fn unit(&mut self) -> f64 { (self.next() % (1 << 30)) as f64 / (1u64 << 30) as f64 }
     fn range(&mut self, lo: f64, hi: f64) -> f64 { lo + (hi - lo) * self.unit() }
 }
-fn close(a: f64, b: f64, tol: f64) -> bool { (a - b).abs() <= tol * (1.0 + a.abs().max(b.abs())) }
+fn close(a: f64, b: f64, tol: f64) -> bool { a == b || (a.is_finite() && b.is_finite() && (a - b).abs() <= tol * (1.0 + a.abs().max(b.abs()))) }
 /// purely relative (for quantities that may be tiny, e.g. with weights 1e-17)
-fn rclose(a: f64, b: f64, tol: f64) -> bool { a == b || (a - b).abs() <= tol * a.abs().max(b.abs()) }
+fn rclose(a: f64, b: f64, tol: f64) -> bool { a == b || (a.is_finite() && b.is_finite() && (a - b).abs() <= tol * a.abs().max(b.abs())) }
 
 // ------------------------------------------------------------------------------------------- independent references
 fn ref_rv(a: &RealVectorState, b: &RealVectorState) -> f64 {
@@ -58,6 +58,9 @@ fn rv_lattice(dim: usize, rng: &mut Lcg) -> Vec<RealVectorState> {
     if dim >= 2 { let mut p = vec![0.0; dim]; p[0] = 3.0; p[dim - 1] = 4.0; v.push(RealVectorState::new(p)); }
     for _ in 0..6 { v.push(RealVectorState::new((0..dim).map(|_| specials[(rng.next() % 10) as usize]).collect())); }
     for _ in 0..6 { v.push(RealVectorState::new((0..dim).map(|_| rng.range(-10.0, 10.0)).collect())); }
+    // large magnitudes: squares overflow above ~1.3e154
+    { let mut e = vec![0.0; dim]; e[0] = 1.0e160; v.push(RealVectorState::new(e)); }
+    { let mut e = vec![0.0; dim]; e[dim - 1] = -3.0e200; v.push(RealVectorState::new(e)); }
     v
 }
 fn ulp_up(x: f64) -> f64 { f64::from_bits(if x >= 0.0 { x.to_bits() + 1 } else { x.to_bits() - 1 }) }
@@ -104,7 +107,7 @@ fn metric<SP: StateSpace>(o: &mut Rep, seed: u64, k: &Kit<SP>) {
             if !close(d, e, 1.0e-9) { o.report("metric", seed, format!("{}: d(a,b) = {} but d(b,a) = {}", tag, d, e)); }
             if let Some(dm) = k.diam { if d > dm + 1.0e-9 { o.report("metric", seed, format!("{}: distance {} exceeds the diameter {}", tag, d, dm)); } }
             let r = (k.refd)(a, b);
-            if !close(d, r, 1.0e-6) && (d - r).abs() > 1.0e-6 { o.report("metric", seed, format!("{}: distance {} but the independent reference gives {}", tag, d, r)); }
+            if !close(d, r, 1.0e-6) && (d - r).abs() > 1.0e-6 { o.report("metric", seed, format!("{}: distance {:?} but the independent reference gives {:?}", tag, d, r)); }
         }
     }
     let mut g = Lcg(seed ^ 0x9e37);
@@ -283,7 +286,7 @@ pub fn fam_ctor(o: &mut Rep, seed: u64) {
         }
     }
     for _ in 0..200 {
-        let sc = [1.0e-12, 1.0e-9, 1.0e-3, 1.0, 1.0e3, 1.0e100][(g.next() % 6) as usize];
+        let sc = [1.0e-12, 1.0e-9, 1.0e-3, 1.0, 1.0e3, 1.0e100, 1.0e160][(g.next() % 7) as usize];
         let (x, y, z, w) = (g.range(-1.0, 1.0) * sc, g.range(-1.0, 1.0) * sc, g.range(-1.0, 1.0) * sc, g.range(-1.0, 1.0) * sc);
         let n = (x * x + y * y + z * z + w * w).sqrt();
         match SO3State::new(x, y, z, w).normalise() {
